@@ -227,6 +227,29 @@ pub fn gen(out: &mut dyn Write, family: &str, thorough: bool, seed: u64) {
             writeln!(out, "{}", c.to_line("c12sep")).unwrap();
         }
     }
+    // annotated boundaries WITHOUT any feature are examples too (C10): dictionary-only configurations (n-gram sizes or windows 0) in which
+    // most annotated boundaries are touched by no dictionary word and all of those are non-boundaries; the learner sees them only through
+    // the bias, so a text without dictionary words must come out unsegmented (oracle `c10bias`)
+    if family == "C10" {
+        for i in 0..(if thorough { 24 } else { 6 }) {
+            let (cw, cn, tw, tn) = [(1u8, 0u8, 1u8, 0u8), (0, 2, 0, 2), (0, 0, 0, 0), (2, 0, 0, 1)][i % 4];
+            let dw = ["ab", "漢字", "a"][i % 3];
+            let filler = ["wxyz", "かきくけこ", "mnopq"][(i / 3) % 3];
+            let mut lines: Vec<(char, String)> = vec![];
+            for k in 0..(6 + i % 3) {
+                // one dictionary word per sentence between long unsegmented fillers: featureless boundaries outnumber the others
+                let l = if k % 2 == 0 { format!("{filler}{filler} {dw} {filler}") } else { format!("{filler} {dw} {filler}{filler}{filler}") };
+                lines.push(('t', l));
+            }
+            let c = TrCase {
+                cw, cn, tw, tn, ml: 2, solver: [1u8, 5, 6, 0][i % 4],
+                dict: vec![dw.to_string()], tagdict: vec![], corpus: lines,
+                eval: vec![filler.to_string(), format!("{filler}{filler}")], trace: None,
+            };
+            // (tw, tn) = (0, 1) in the last configuration keeps type n-grams switched off through the window
+            writeln!(out, "{}", c.to_line("c10bias")).unwrap();
+        }
+    }
     // scale: sizes at which narrow integer types inside the trainer would wrap
     let tok_line = |r: &mut Rng, n_chars: usize, alpha: &[char]| -> String {
         let mut s = String::new();
